@@ -225,6 +225,18 @@ def callsites(ctx, d):
             ks = TransformKey(ss, sd)
             ctx.require(ks.src is ms and ks.dst is md, "callsite:TransformKey", f"TransformKey({ss!r},{sd!r}) -> {ks!r}")
             ctx.require(ks == ke and hash(ks) == hash(ke), "callsite:TransformKey-eq-hash", f"{ks!r} vs {ke!r}")
+        # mixed spellings: one frame as a string, the other as the member (and a non-member string beside a member)
+        for a1, a2, what in ((ss, md, "(str, member)"), (ms, sd, "(member, str)")):
+            with ctx.under_test(f"TransformKey{what}"):
+                km = TransformKey(a1, a2)
+                ctx.require(km.src is ms and km.dst is md, "callsite:TransformKey-mixed", f"TransformKey({a1!r}, {a2!r}) -> src {km.src!r} / dst {km.dst!r}, expected the members {ms!r} / {md!r}")
+                ctx.require(km == ke and hash(km) == hash(ke), "callsite:TransformKey-mixed-eq-hash", f"TransformKey({a1!r}, {a2!r}) is not equal to / hashes differently from {ke!r}")
+        for a1, a2 in (("no_such_frame", md), (ms, "no_such_frame")):
+            try:
+                bad = TransformKey(a1, a2)
+            except Exception:  # noqa: BLE001 -- rejection is the expected outcome
+                bad = None
+            ctx.require(bad is None, "callsite:TransformKey-nonmember-accepted", f"TransformKey({a1!r}, {a2!r}) was accepted: {bad!r}")
         if ms is not md:
             mat = HomogeneousMatrix((1.0, 2.0, 3.0), (1.0, 0.0, 0.0, 0.0), src=ms, dst=md)
             td = TransformDict(mat)
@@ -235,6 +247,9 @@ def callsites(ctx, d):
                 ctx.require(np.allclose(got, ref, atol=0, rtol=0), "callsite:TransformDict-key", f"{got} vs {ref}")
                 got2 = td.transform(TransformKey(ss, sd), p)
                 ctx.require(np.allclose(got2, ref, atol=0, rtol=0), "callsite:TransformDict-key", f"{got2} vs {ref}")
+                for k_ in ((ss, md), (ms, sd), [ss, md]):
+                    got3 = td.transform(k_, p)
+                    ctx.require(np.allclose(got3, ref, atol=0, rtol=0), "callsite:TransformDict-key-mixed", f"transform with key {k_!r}: {got3} vs {ref}")
             # lookups by name must find what was registered under the enum members (and vice versa)
             with ctx.under_test("TransformDict.get / [] (str key)"):
                 ctx.require(td.get((ss, sd)) is mat and td[(ss, sd)] is mat, "callsite:TransformDict-get", f"get/[] with ({ss!r}, {sd!r}) did not return the matrix registered for ({ms}, {md})")
